@@ -47,8 +47,12 @@ def placements(w):
 
 def run(ctx):
     # the tokenizer design: data fields are opaque for the ideal design, each deviation loses a content class
-    for cfg, want in (("MC_Extract_data.cfg", None), ("MC_Extract_data_nolen.cfg", "DataOpaque"), ("MC_Extract_data_nul.cfg", "DataOpaque")):
-        r = tlc.check("Extract.tla", cfg, workers=8, timeout=900)
+    jobs = (("MC_Extract_data.cfg", None), ("MC_Extract_data_nolen.cfg", "DataOpaque"), ("MC_Extract_data_nul.cfg", "DataOpaque"),
+            ("MC_Extract_data_plus1.cfg", "DataOpaque"))
+    from concurrent.futures import ThreadPoolExecutor
+    with ThreadPoolExecutor(max_workers=4) as ex:
+        results = list(ex.map(lambda j: tlc.check("Extract.tla", j[0], workers=2, timeout=900), jobs))
+    for (cfg, want), r in zip(jobs, results):
         if want is None:
             if not r["ok"]:
                 raise core.Infra("ideal tokenizer violates %s" % r["violated"])
